@@ -677,7 +677,7 @@ int KSI_FsClient_setPublicationUrl(KSI_NetworkClient *client, const char *path) 
 
 int KSI_FsClient_extractPath(const char *uri, char **path) {
 	int res = KSI_UNKNOWN_ERROR;
-	const char *scheme = "file://";
+	const char *separator = "://";
 	char *pathStart = NULL;
 	char *tmpPath = NULL;
 
@@ -686,11 +686,13 @@ int KSI_FsClient_extractPath(const char *uri, char **path) {
 		goto cleanup;
 	}
 
-	pathStart = strstr(uri, scheme) + strlen(scheme);
+	/* The scheme is matched case insensitively by the caller, thus locate the path by the scheme separator. */
+	pathStart = strstr(uri, separator);
 	if (pathStart == NULL) {
 		res = KSI_INVALID_ARGUMENT;
 		goto cleanup;
 	}
+	pathStart += strlen(separator);
 
 	tmpPath = KSI_malloc(strlen(pathStart) + 1);
 	if (tmpPath == NULL) {
